@@ -487,6 +487,7 @@ and run_case_model (oc : out_channel) (c : case) : unit =
       match st.(0) with
       | "scx" -> xscript := (ios st.(1), Array.sub st 2 (Array.length st - 2)) :: !xscript; "ok"
       | "size" -> "ok"
+      | "nvord" -> "ok"    (* self-checking probe of the harness: node value whose PartialOrd is not its Ord *)
       | "klossy" -> "ok"   (* self-checking probe of the harness: keys with a non-injective Display *)
       | "gnew" -> graphs := Array.append !graphs [| [] |]; "ok"
       | "gins" ->
